@@ -49,7 +49,17 @@ MEDIA_TYPES = ['screen', 'print', 'all', 'tv', 'handheld']
 MEDIA_FEATURES = ['min-width', 'max-width', 'min-height', 'max-height', 'orientation', 'color']
 PSEUDO = [':hover', ':focus', ':first-child', ':active', ':visited', ':last-child']
 PSEUDO2 = ['::before', '::after', '::first-line']
-ATTRS = ['[href]', '[type=text]', '[type="text"]', '[data-x="1"]', '[lang|=en]', '[title~=hello]']
+ATTRS = ['[href]', '[type=text]', '[type="text"]', '[data-x="1"]', '[lang|=en]', '[title~=hello]', '[title="x,y"]', '[title="read > more"]',
+         '[data-k="a + b"]', "[alt='p ~ q']", '[data-s="semi;colon"]', '[data-b="{}"]', '[rel="a  b"]', '[href$=".pdf"]', '[data-c=", "]']
+IDS = ['main', 'top', 'nav', 'q1', 'zz-top', 'page', 'face', 'cafe', 'cafe1', 'deadbeef', 'abcdeg', 'abg', 'a1', 'bada55e', 'be', 'fade2', 'f00d']
+
+
+# statement token lists exactly as Statement.parsed holds them (a blank is inserted before a media list)
+STMTS = [['@charset', ' ', '"utf-8"', ';'], ['@import', ' ', '"foo.css"', ';'], ['@import', ' ', "'bar.css'", ';'],
+         ['@import', ' ', '"theme.css?v=3"', ';'], ['@import', ' ', '"fonts.php"', ';'], ['@import', ' ', '"a/b/print.css"', ' ', 'print', ';'],
+         ['@import', ' ', 'url("icons.css#glyphs")', ' ', 'screen', ';'], ['@import', ' ', 'url("x.css")', ';'],
+         ['@import', ' ', '"wide.css"', ' ', 'screen', ' ', 'and', ' ', '(', 'min-width', ':', '100px', ')', ';'],
+         ['@import', ' ', '"http://example.com/r.css"', ';'], ['@import', ' ', '"UP.CSS"', ';']]
 
 
 class Gen:
@@ -76,7 +86,7 @@ class Gen:
             if k < 0.55:
                 items.append(('class', '.' + self.name()))
             elif k < 0.7:
-                items.append(('id', '#' + r.choice(['main', 'top', 'nav', 'q1', 'zz-top', 'page'])))
+                items.append(('id', '#' + r.choice(IDS)))
             elif k < 0.85:
                 items.append(('pseudo', r.choice(PSEUDO)))
             elif k < 0.92 and 'pseudo2' in self.f:
@@ -173,23 +183,43 @@ class Gen:
         r = self.rng
         out = []
         scopevars = list(scopevars)
+        defined_here, used_here = set(), set()
         n = r.choice([1, 2, 2, 3, 4])
         for _ in range(n):
             k = r.random()
-            if 'var' in self.f and k < 0.12:
-                self.nvar += 1
-                nm = '@v%d' % self.nvar
-                out.append(('var', nm, self.value(scopevars)))
-                scopevars.append(nm)
+            if 'var' in self.f and k < 0.15:
+                # a small pool of names: inner definitions shadow outer ones; within a block a name is defined at most
+                # once and before its uses (the property's side condition)
+                pool = [v for v in ['@a', '@b', '@c', '@w-1', '@v%d' % (self.nvar + 1)] if v not in defined_here and v not in used_here]
+                if pool:
+                    nm = r.choice(pool)
+                    self.nvar += 1
+                    out.append(('var', nm, self.value([v for v in scopevars if v != nm])))
+                    defined_here.add(nm)
+                    if nm not in scopevars:
+                        scopevars.append(nm)
+                else:
+                    out.append(self.decl(scopevars) if in_rule else self.rule(max(depth - 1, 0), False, scopevars, media_depth))
             elif depth > 0 and k < 0.4:
                 out.append(self.rule(depth - 1, True, scopevars, media_depth))
             elif depth > 0 and 'media' in self.f and k < 0.5 and media_depth < 2:
                 out.append(('media', self.query(allow_type=(media_depth == 0)), self.body(depth - 1, in_rule, scopevars, media_depth + 1)))
+            elif 'keyframes' in self.f and not in_rule and media_depth >= 1 and k < 0.6:
+                out.append(self.keyframes())
+            elif 'fontface' in self.f and not in_rule and media_depth >= 1 and k < 0.68:
+                out.append(('fontface', [self.decl([]) for _ in range(r.choice([1, 2]))]))
             elif in_rule:
-                out.append(self.decl(scopevars))
+                d = self.decl(scopevars)
+                used_here.update(it[1] for it in d[2] if it[0] == 'var')
+                out.append(d)
             else:
                 out.append(self.rule(max(depth - 1, 0), False, scopevars, media_depth))
         return out
+
+    def keyframes(self):
+        r = self.rng
+        frames = [(r.choice(['from', 'to', '50%', '0%', '100%', '33.3%']), [self.decl([]) for _ in range(r.choice([1, 2]))]) for _ in range(r.choice([1, 2, 3]))]
+        return ('keyframes', r.choice(['@keyframes', '@-webkit-keyframes', '@-moz-keyframes', '@-o-keyframes', '@-ms-keyframes']), r.choice(['spin', 'fade', 'k1']), frames)
 
     def rule(self, depth, nested, scopevars, media_depth=0):
         return ('rule', self.selectors(nested), self.body(depth, True, scopevars, media_depth), {'sp_brace': self.rng.random() < 0.6})
@@ -208,12 +238,11 @@ class Gen:
             elif 'media' in self.f and k < 0.3:
                 out.append(('media', self.query(), self.body(max(depth - 1, 1), False, scopevars, 1)))
             elif 'keyframes' in self.f and k < 0.36:
-                frames = [(r.choice(['from', 'to', '50%', '0%', '100%', '33.3%']), [self.decl([]) for _ in range(r.choice([1, 2]))]) for _ in range(r.choice([1, 2, 3]))]
-                out.append(('keyframes', r.choice(['@keyframes', '@-webkit-keyframes', '@-moz-keyframes', '@-o-keyframes', '@-ms-keyframes']), r.choice(['spin', 'fade', 'k1']), frames))
+                out.append(self.keyframes())
             elif 'fontface' in self.f and k < 0.40:
                 out.append(('fontface', [self.decl([]) for _ in range(r.choice([1, 2, 3]))]))
             elif 'stmt' in self.f and k < 0.44:
-                out.append(('stmt', r.choice([['@charset', ' ', '"utf-8"', ';'], ['@import', ' ', '"foo.css"', ';'], ['@import', ' ', "'bar.css'", ';']])))
+                out.append(('stmt', r.choice(STMTS)))
             else:
                 out.append(self.rule(r.randint(0, depth), False, scopevars))
         return out
